@@ -1,7 +1,7 @@
 (** C13 — the negotiated msize is never exceeded by either peer.
     Statements only; proofs in Frame/SizesProofs.v (pure arithmetic over N, all values). *)
 From Coq Require Import NArith List Bool.
-From P9V Require Import gen.ConstGen Frame.Sizes Frame.SizesProofs Frame.Model Frame.Instantiate Frame.SizesLink.
+From P9V Require Import gen.ConstGen gen.CodecGen Codec.Reuse Frame.Sizes Frame.SizesProofs Frame.Model Frame.Instantiate Frame.SizesLink Frame.SizesGen.
 Import ListNotations.
 Open Scope N_scope.
 
@@ -90,6 +90,35 @@ Print Assumptions C13_client_io.
 Theorem C13_payload_size : forall m,
   153 < m -> m < 4294967296 -> 0 < payload_size m /\ payload_size m <= m - 153.
 Proof. exact payload_size_bounds. Qed.
+
+(** where the client's 153 comes from: msgDotLRegistry.largestFixedSize = max over ALL registered types of
+    calculateSize (FixedSize() of a payloader, else the encoded length of the zero value), recomputed here from the
+    layouts go2coq reads off messages.go (gen/CodecGen.v) -- not a hand constant; the harness additionally
+    compares the value the running registry holds *)
+Theorem C13_largest_fixed_size : largest_from_layouts = largestFixedSize.
+Proof. exact largest_fixed_size_from_layouts. Qed.
+Print Assumptions C13_largest_fixed_size.
+
+(** ... and what the client clause needs of it: header + fixed part of every payload-carrying message
+    (Twrite 23, Rread / Rreaddir 11) fits below it, for every registered payloader.  FixedSize() excludes
+    the 7-byte header, so a maximum over the payloaders alone (16) does not have this property: *)
+Theorem C13_largest_covers_payloaders : forall g f,
+  In g gen_msgs -> gm_fixed_size g = Some f -> p9_headerLength + f <= largestFixedSize.
+Proof. exact largest_covers_payloaders. Qed.
+Print Assumptions C13_largest_covers_payloaders.
+
+Theorem C13_overheads_from_layouts :
+  fixed_of_typ p9_msgTwrite = Some (requestOverhead - p9_headerLength) /\
+  fixed_of_typ p9_msgRread = Some (replyOverhead - p9_headerLength) /\
+  fixed_of_typ p9_msgRreaddir = Some (replyOverhead - p9_headerLength).
+Proof. exact overheads_from_layouts. Qed.
+Print Assumptions C13_overheads_from_layouts.
+
+Theorem C13_largest_payloaders_only_refuted :
+  largest_payloaders_only = 16 /\
+  let p := round_down (sub32 154 largest_payloaders_only) 512 in twrite_frame p = 161.
+Proof. exact payloaders_only_refuted. Qed.
+Print Assumptions C13_largest_payloaders_only_refuted.
 
 (** client Readdir: the count sent is min(count, m-11); request and fullest possible reply fit *)
 Theorem C13_client_readdir : forall own announced m count,
